@@ -71,6 +71,25 @@ def check_case(ctx, case):
     rd_out = sorted((f.ftype, f.qual, reading(f.parts, n)) for f in cout.feats if reading(f.parts, n) is not None)
     if rd_in != rd_out:
         ctx.fail("after >> {} some stranded feature no longer reads the same nucleotides in the same order".format(k), case)
+    # a feature without a location (what the parser leaves for a location it cannot read) stays without one, in place
+    if n >= 2 and case.get("m") == 1 and len(rec.features) >= 1:
+        from Bio.SeqFeature import SeqFeature
+        r2 = impl.mk_record(CRec(3, wd, feats, []))
+        r2.features.insert(1, SeqFeature(None, type="misc_feature", id="F-none", qualifiers={"label": ["nowhere"]}))
+        for i_, f_ in enumerate(r2.features):
+            if f_.id in (None, "<unknown id>"):
+                f_.id = "F{}".format(i_)
+        o2 = r2 >> k
+        if [f_.id for f_ in o2.features] != [f_.id for f_ in r2.features]:
+            ctx.fail("rotation does not carry the identifiers of the features over, in order: {} -> {}".format(
+                [f_.id for f_ in r2.features], [f_.id for f_ in o2.features]), case)
+        elif o2.features[1].location is not None:
+            ctx.fail("after >> {} a feature that had no location has the location {}".format(k, o2.features[1].location), case)
+        else:
+            rest_in = [canon_f for i_, canon_f in enumerate(impl.canon_feature(f_) for f_ in r2.features if f_.location is not None)]
+            rest_out = [impl.canon_feature(f_) for f_ in o2.features if f_.location is not None]
+            if denot(rest_out, n) != shifted(denot(rest_in, n), k, n):
+                ctx.fail("with a location-less feature in the table, >> {} moves the located features elsewhere".format(k), case)
     d_in, d_out = denot(cin.feats, n), denot(cout.feats, n)
     if d_out != shifted(d_in, k, n):
         ctx.fail("after >> {} some feature is not attached to the same nucleotides: {} vs expected {}".format(
@@ -218,6 +237,14 @@ def run(ctx):
             st = (0, 1, -1)[j_ % 3]
             ctx.guard(check_case, {"word": wd, "feats": feats_to_json([Feat(0, "u%d" % (1 + j_ % 2), (), tuple((s_, e_, st) for s_, e_ in ps))]),
                                    "track": list(range(n)), "k": (1, n - 1)[j_ % 2], "k2": 1, "m": 1})
+    # words that are their own rotation (tandem repeats): the record still turns, the features with it
+    for unit, reps in (("AC", 3), ("ACG", 2), ("A", 4), ("ACGT", 3)):
+        wd = unit * reps
+        n = len(wd)
+        for k in range(0, n + 1):
+            ctx.guard(check_case, {"word": wd, "feats": feats_to_json([Feat(1, "u1", (), ((1, min(n, 3), 1),)),
+                                                                        Feat(2, "u2", (), ((0, 1, -1), (n - 1, n, -1)))]),
+                                   "track": [i_ % len(unit) for i_ in range(n)], "k": k, "k2": len(unit), "m": 1})
     ctx.extra["cov_small_scope"] = "all single-part locations on records of length 1..{}, every shift in [-n-1, 2n+1]".format(top)
     for _ in range(ctx.budget(1500, 60000)):
         ctx.guard(check_case, gen_case(ctx.rng))
